@@ -96,7 +96,7 @@ def build(rng, *, block_size: int, sector_size: int, nblocks: int, tail_cut_sect
           placement: str = "shuffle", tag: int = 1, kind: int = 0, seqs=(5, 9), stale: str = "valid",
           has_parent: bool = False, locator: bytes | None = None, partial: dict | None = None,
           disk_id: bytes | None = None, physical_sector_size: int = 4096, far_mb: int = 0, stale_offsets: bool = True,
-          meta_item_order=None, item_gap: int = 0, creator: str = "vf writer", leave_alloc: bool = False,
+          meta_item_order=None, item_gap: int = 0, creator: str | bytes | None = None, leave_alloc: bool = False,
           bat_mb: int | None = None, meta_mb: int | None = None, checksums: bool = True, meta_table_order=None, log_guids=(None, None),
           extra_regions=(), extra_items=(), items_at_region_end: bool = False, regions_last: bool = False):
     """-> (SparseFile, Layer, meta).
@@ -196,7 +196,19 @@ def build(rng, *, block_size: int, sector_size: int, nblocks: int, tail_cut_sect
     for c, mb in sb_mb.items():
         bat[(c + 1) * ratio + c] = 6 | (mb << 20)
     sf = SparseFile()
-    fid = b"vhdxfile" + creator.encode("utf-16-le")
+    if creator is None:
+        # the creator field (512 bytes of UTF-16) is informational: "parsers must not depend on it". Writers leave a terminated
+        # string followed by whatever the buffer held before, or fill the whole field; drawn from a private generator so that
+        # the caller's random stream is the same for every choice
+        import random as _random
+
+        r2 = _random.Random(tag ^ 0x5EED)
+        creator = r2.choice(["vf writer", "vf writer",
+                             "vf writer\0".encode("utf-16-le") + b"\x00\xd8" + bytes(r2.randrange(256) for _ in range(r2.randrange(1, 60))),
+                             "vf\0".encode("utf-16-le") + b"\x41\xdc\x00\xdc\xff",
+                             ("M" * 256).encode("utf-16-le"),
+                             b""])
+    fid = b"vhdxfile" + (creator if isinstance(creator, bytes) else creator.encode("utf-16-le"))
     sf.put(0, fid.ljust(512 + 8, b"\0")[:520])
     fw = bytes(rng.randrange(256) for _ in range(16))
     dw = bytes(rng.randrange(256) for _ in range(16))
@@ -295,6 +307,6 @@ def build(rng, *, block_size: int, sector_size: int, nblocks: int, tail_cut_sect
         "pos_mb": {str(k): v for k, v in pos_mb.items()}, "disk_id": disk_id.hex(), "seqs": list(seqs),
         "bat_entries": bat_len_entries, "metadata_bytes": 5 * KB64 + 4096 + 8 * bat_len_entries + 1024,
         "physical_sector_size": physical_sector_size, "has_parent": has_parent, "bat_mb": bat_mb, "meta_mb": meta_mb,
-        "fw": fw.hex(), "dw": dw.hex(), "creator": creator,
+        "fw": fw.hex(), "dw": dw.hex(), "creator": creator.hex() if isinstance(creator, bytes) else creator,
     }
     return sf, layer, meta
